@@ -193,6 +193,61 @@ Proof.
   rewrite Ho1. apply close_do_post.
 Qed.
 
+Lemma open_core_dec d ts w :
+  ((c_enabled (w_c w) = false /\ c_in_ts (w_c w) = false) \/ c_open (w_c w) = true) /\ open_core d ts w = w \/
+  (c_enabled (w_c w) = true \/ c_in_ts (w_c w) = true) /\ c_open (w_c w) = false /\
+  open_core d ts w = open_do d ts w.
+Proof.
+  unfold open_core.
+  destruct (c_enabled (w_c w)) eqn:E1, (c_in_ts (w_c w)) eqn:E3, (c_open (w_c w)) eqn:E2; cbn [negb andb];
+    try (left; split; [auto|]; first [rewrite <- E3 at 1; apply set_in_ts_id | rewrite <- E3; apply set_in_ts_id2]);
+    try (right; auto; fail).
+Qed.
+
+Lemma close_core_dec d ts w :
+  ((c_enabled (w_c w) = false /\ c_in_ts (w_c w) = false) \/ c_open (w_c w) = false) /\ close_core d ts w = w \/
+  (c_enabled (w_c w) = true \/ c_in_ts (w_c w) = true) /\ c_open (w_c w) = true /\
+  close_core d ts w = close_do d ts w.
+Proof.
+  unfold close_core.
+  destruct (c_enabled (w_c w)) eqn:E1, (c_in_ts (w_c w)) eqn:E3, (c_open (w_c w)) eqn:E2; cbn [negb andb];
+    try (left; split; [auto|]; first [rewrite <- E3 at 1; apply set_in_ts_id | rewrite <- E3; apply set_in_ts_id2]);
+    try (right; auto; fail).
+Qed.
+
+(* the opening function: either nothing happens to the packet state, or a packet is opened *)
+Lemma open_fn_dec d w :
+  let w' := open_fn d w in
+  (c_open (w_c w') = c_open (w_c w) /\ c_at (w_c w') = c_at (w_c w) /\
+   c_psize (w_c w') = c_psize (w_c w) /\ c_off_content (w_c w') = c_off_content (w_c w) /\
+   (c_in_ts (w_c w) = true -> c_open (w_c w) = true)) \/
+  (c_open (w_c w) = false /\ c_open (w_c w') = true /\ c_at (w_c w') = c_off_content (w_c w') /\
+   c_psize (w_c w') = c_psize (w_c w)).
+Proof.
+  cbv zeta. rewrite open_fn_eq.
+  destruct (preamble_frame d w (has_member (d_pc d) "timestamp_begin")) as [S _].
+  unfold same_packet in S. set (w1 := snd (preamble_ts d w _)) in *.
+  set (ts := fst (preamble_ts d w _)).
+  destruct (open_core_dec d ts w1) as [[C E]|[C [Ho E]]]; rewrite E.
+  - left. repeat split; try (intuition congruence).
+    all: intros Hi; destruct C as [[_ C]|C]; intuition congruence.
+  - right. destruct (open_do_post d ts w1) as [P _]. unfold open_post in P.
+    repeat split; intuition congruence.
+Qed.
+
+Lemma close_give_pk d a w :
+  c_open (w_c (close_give d a w)) = c_open (w_c w) /\
+  c_in_ts (w_c (close_give d a w)) = c_in_ts (w_c w) /\
+  c_disc (w_c (close_give d a w)) = c_disc (w_c w) /\ c_seq (w_c (close_give d a w)) = c_seq (w_c w) /\
+  c_last_ts (w_c (close_give d a w)) = c_last_ts (w_c w) /\
+  c_use_ts (w_c (close_give d a w)) = c_use_ts (w_c w) /\
+  w_or (close_give d a w) = w_or w /\ w_err (close_give d a w) = w_err w /\
+  (c_at (w_c w) = c_psize (w_c w) -> c_at (w_c (close_give d a w)) = c_psize (w_c (close_give d a w))).
+Proof.
+  unfold close_give. cbv zeta. destruct (a_newbuf a); up; repeat split; auto.
+  intros E. rewrite E, Nat.eqb_refl. reflexivity.
+Qed.
+
 (* ------------------------------------------------------------------ (d) accessors = ghost counts *)
 Definition quiet (e : ev) : Prop := match e with EPacket _ _ | EDisc => False | _ => True end.
 Lemma lowok_quiet b e : lowok b e -> quiet e.
@@ -310,15 +365,17 @@ Proof.
     set (w2 := close_do d ts w1) in *. unfold close_post in P.
     destruct P as [P1 [_ [_ [P4 [_ [_ [P7 _]]]]]]].
     unfold close_hand. rewrite <- O1, Ho, P1. cbn [andb negb].
-    assert (C : cnt_inv d (logev w2 (EPacket (c_psize (w_c w2))
+    assert (C : cnt_inv d (close_give d (hd_ans w) w2)).
+    { assert (C0 : cnt_inv d (logev w2 (EPacket (c_psize (w_c w2))
                                        (bytes_of_stream (d_bo d) (c_s (w_c w2)) (c_psize (w_c w2) / 8))))).
-    { destruct H1 as [I1 I2]. destruct X as [seg [XE XF]].
-      destruct (quiet_counts seg) as [Q1 Q2].
-      { eapply Forall_impl; [|exact XF]. intros e; apply stok_quiet. }
-      unfold cnt_inv. up. rewrite XE, !npk_app, !ndisc_app, Q1, Q2, P4, P7, I1, I2.
-      destruct (has_member (d_pc d) "packet_seq_num"); cbn; split; lia. }
-    destruct (a_newbuf (hd_ans w)); [|exact C].
-    unfold cnt_inv in *. up. exact C.
+      { destruct H1 as [I1 I2]. destruct X as [seg [XE XF]].
+        destruct (quiet_counts seg) as [Q1 Q2].
+        { eapply Forall_impl; [|exact XF]. intros e; apply stok_quiet. }
+        unfold cnt_inv. up. rewrite XE, !npk_app, !ndisc_app, Q1, Q2, P4, P7, I1, I2.
+        destruct (has_member (d_pc d) "packet_seq_num"); cbn; split; lia. }
+      unfold close_give. cbv zeta. destruct (a_newbuf (hd_ans w)); [|exact C0].
+      unfold cnt_inv in *. up. exact C0. }
+    destruct (a_eager (hd_ans w)); [apply open_fn_cnt|]; exact C.
 Qed.
 
 Lemma with_use_ts_cnt d f w :
@@ -416,7 +473,7 @@ Lemma close_cb_closes d w :
   c_enabled (w_c w) = true ->
   a_toggle (hd default_ans (w_or w)) <> Some false ->
   a_toggle (hd default_ans (tl (w_or w))) <> Some false ->
-  c_open (w_c (close_cb d w)) = false.
+  c_open (w_c (close_cb d w)) = false \/ c_at (w_c (close_cb d w)) = c_off_content (w_c (close_cb d w)).
 Proof.
   intros He T1 T2. rewrite close_cb_eq.
   set (w0 := cb_enter 2 w).
@@ -430,8 +487,12 @@ Proof.
     - rewrite close_noop; [|left; exact Eo].
       destruct (preamble_frame d w0 (has_member (d_pc d) "timestamp_end")) as [S _].
       unfold same_packet in S. intuition congruence. }
-  unfold close_hand. destruct (_ && _); [|exact C].
-  cbv zeta. destruct (a_newbuf _); up; exact C.
+  unfold close_hand. destruct (_ && _); [|left; exact C].
+  destruct (close_give_pk d (hd_ans w) (close_fn d w0)) as [G _]. rewrite C in G.
+  destruct (a_eager _); [|left; exact G].
+  destruct (open_fn_dec d (close_give d (hd_ans w) (close_fn d w0))) as [[O _]|[_ [_ [A _]]]].
+  - left. congruence.
+  - right. exact A.
 Qed.
 
 Theorem fini_flushes d w :
@@ -443,8 +504,11 @@ Theorem fini_flushes d w :
 Proof.
   intros Hn He T1 T2. cbv zeta. unfold step. rewrite Hn.
   destruct (c_open (w_c w) && negb (c_at (w_c w) <=? c_off_content (w_c w))) eqn:Ec.
-  - pose proof (close_cb_closes d w He T1 T2) as C.
-    destruct (w_err (close_cb d w)); up; rewrite C; reflexivity.
+  - assert (C : c_open (w_c (close_cb d w)) &&
+                negb (c_at (w_c (close_cb d w)) <=? c_off_content (w_c (close_cb d w))) = false).
+    { destruct (close_cb_closes d w He T1 T2) as [C|C]; rewrite C;
+        [reflexivity|rewrite Nat.leb_refl; apply andb_false_r]. }
+    destruct (w_err (close_cb d w)); up; exact C.
   - rewrite Hn. up. exact Ec.
 Qed.
 
@@ -508,28 +572,6 @@ Lemma KK_same w w' :
   c_psize (w_c w') = c_psize (w_c w) -> c_off_content (w_c w') = c_off_content (w_c w) -> KK w'.
 Proof. unfold KK. intros [K1 K2] -> -> -> ->. auto. Qed.
 
-Lemma open_core_dec d ts w :
-  ((c_enabled (w_c w) = false /\ c_in_ts (w_c w) = false) \/ c_open (w_c w) = true) /\ open_core d ts w = w \/
-  (c_enabled (w_c w) = true \/ c_in_ts (w_c w) = true) /\ c_open (w_c w) = false /\
-  open_core d ts w = open_do d ts w.
-Proof.
-  unfold open_core.
-  destruct (c_enabled (w_c w)) eqn:E1, (c_in_ts (w_c w)) eqn:E3, (c_open (w_c w)) eqn:E2; cbn [negb andb];
-    try (left; split; [auto|]; first [rewrite <- E3 at 1; apply set_in_ts_id | rewrite <- E3; apply set_in_ts_id2]);
-    try (right; auto; fail).
-Qed.
-
-Lemma close_core_dec d ts w :
-  ((c_enabled (w_c w) = false /\ c_in_ts (w_c w) = false) \/ c_open (w_c w) = false) /\ close_core d ts w = w \/
-  (c_enabled (w_c w) = true \/ c_in_ts (w_c w) = true) /\ c_open (w_c w) = true /\
-  close_core d ts w = close_do d ts w.
-Proof.
-  unfold close_core.
-  destruct (c_enabled (w_c w)) eqn:E1, (c_in_ts (w_c w)) eqn:E3, (c_open (w_c w)) eqn:E2; cbn [negb andb];
-    try (left; split; [auto|]; first [rewrite <- E3 at 1; apply set_in_ts_id | rewrite <- E3; apply set_in_ts_id2]);
-    try (right; auto; fail).
-Qed.
-
 Lemma cb_enter_pk k w :
   c_open (w_c (cb_enter k w)) = c_open (w_c w) /\ c_at (w_c (cb_enter k w)) = c_at (w_c w) /\
   c_psize (w_c (cb_enter k w)) = c_psize (w_c w) /\
@@ -546,24 +588,23 @@ Lemma open_cb_dec d w :
   (c_open (w_c w) = false /\ c_open (w_c w') = true /\ c_at (w_c w') = c_off_content (w_c w') /\
    c_psize (w_c w') = c_psize (w_c w)).
 Proof.
-  cbv zeta. rewrite open_cb_eq, open_fn_eq.
+  cbv zeta. rewrite open_cb_eq.
   destruct (cb_enter_pk 1 w) as [O0 [A0 [P0 [F0 I0]]]].
-  destruct (preamble_frame d (cb_enter 1 w) (has_member (d_pc d) "timestamp_begin")) as [S _].
-  unfold same_packet in S. set (w1 := snd (preamble_ts d (cb_enter 1 w) _)) in *.
-  set (ts := fst (preamble_ts d (cb_enter 1 w) _)).
-  destruct (open_core_dec d ts w1) as [[C E]|[C [Ho E]]]; rewrite E.
-  - left. repeat split; try (intuition congruence).
-    all: intros Hi; destruct C as [[_ C]|C]; intuition congruence.
-  - right. destruct (open_do_post d ts w1) as [P _]. unfold open_post in P.
-    repeat split; intuition congruence.
+  destruct (open_fn_dec d (cb_enter 1 w)) as [[O [A [P [F X]]]]|[O [O' [A P]]]].
+  - left. repeat split; try congruence. intros Hi. rewrite <- O0. apply X. congruence.
+  - right. repeat split; congruence.
 Qed.
 
+(* the closing callback: nothing happens to the packet state, or the packet is closed, or (eager
+   platform) it is closed and the next one is opened by the platform at once *)
 Lemma close_cb_dec d w :
   let w' := close_cb d w in
   (c_open (w_c w') = c_open (w_c w) /\ c_at (w_c w') = c_at (w_c w) /\
    c_psize (w_c w') = c_psize (w_c w) /\ c_off_content (w_c w') = c_off_content (w_c w) /\
    (c_in_ts (w_c w) = true -> c_open (w_c w) = false)) \/
-  (c_open (w_c w) = true /\ c_open (w_c w') = false /\ c_at (w_c w') = c_psize (w_c w')).
+  (c_open (w_c w) = true /\ c_open (w_c w') = false /\ c_at (w_c w') = c_psize (w_c w')) \/
+  (c_open (w_c w) = true /\ a_eager (hd_ans w) = true /\
+   c_open (w_c w') = true /\ c_at (w_c w') = c_off_content (w_c w')).
 Proof.
   cbv zeta. rewrite close_cb_eq, close_fn_eq.
   destruct (cb_enter_pk 2 w) as [O0 [A0 [P0 [F0 I0]]]].
@@ -579,8 +620,12 @@ Proof.
   - right. destruct (close_do_post d ts w1) as [P _]. unfold close_post in P.
     destruct P as [P1 [P2 _]]. set (w2 := close_do d ts w1) in *.
     unfold close_hand. rewrite <- O1, Ho, P1. cbn [andb negb].
-    split; [reflexivity|]. destruct (a_newbuf _); up; [|auto].
-    split; [exact P1|]. rewrite P2, Nat.eqb_refl. reflexivity.
+    destruct (close_give_pk d (hd_ans w) w2) as [G1 [_ [_ [_ [_ [_ [_ [_ G9]]]]]]]].
+    specialize (G9 P2). rewrite P1 in G1.
+    destruct (a_eager (hd_ans w)) eqn:Ee; [|left; auto].
+    destruct (open_fn_dec d (close_give d (hd_ans w) w2)) as [[O [A [P [F _]]]]|[_ [O [A _]]]].
+    + left. split; [reflexivity|]. split; congruence.
+    + right. auto.
 Qed.
 
 Lemma open_cb_KK d w : KK w -> KK (open_cb d w).
@@ -591,9 +636,10 @@ Proof.
 Qed.
 Lemma close_cb_KK d w : KK w -> KK (close_cb d w).
 Proof.
-  intros K. destruct (close_cb_dec d w) as [[O [A [P [F _]]]]|[_ [O A]]].
+  intros K. destruct (close_cb_dec d w) as [[O [A [P [F _]]]]|[[_ [O A]]|[_ [_ [O A]]]]].
   - eapply KK_same; eauto.
   - split; [congruence|auto].
+  - split; [intros _ H; congruence|congruence].
 Qed.
 
 (* KK /\ flag = 1 is kept by every block used inside _reserve_er_space *)
@@ -631,25 +677,134 @@ Qed.
 
 Lemma close_cb_in d w :
   c_in_ts (w_c w) = true -> c_open (w_c w) = true ->
-  c_open (w_c (close_cb d w)) = false /\ c_in_ts (w_c (close_cb d w)) = true /\
+  (a_eager (hd_ans w) = false -> c_open (w_c (close_cb d w)) = false) /\
+  c_in_ts (w_c (close_cb d w)) = true /\
   exists seg, w_log (close_cb d w) = w_log w ++ ECb 2 true true :: seg /\ Forall (midok true) seg.
 Proof.
   intros Hi Ho.
   destruct (close_cb_shape d true w Hi) as [A [seg [E F]]].
-  destruct (close_cb_dec d w) as [[_ [_ [_ [_ X]]]]|[_ [O _]]].
-  - specialize (X Hi). congruence.
-  - split; [exact O|]. split; [exact A|]. exists seg. split; [|exact F]. rewrite E, Ho. reflexivity.
+  split; [|split; [exact A|]].
+  - intros Hne. destruct (close_cb_dec d w) as [[_ [_ [_ [_ X]]]]|[[_ [O _]]|[_ [X _]]]].
+    + specialize (X Hi). congruence.
+    + exact O.
+    + congruence.
+  - exists seg. split; [|exact F]. rewrite E, Ho. reflexivity.
 Qed.
 
 Lemma wclose d w :
   c_in_ts (w_c w) = true -> c_open (w_c w) = true ->
   let w' := with_use_ts (close_cb d) w in
-  c_open (w_c w') = false /\ c_in_ts (w_c w') = true /\
+  (a_eager (hd_ans w) = false -> c_open (w_c w') = false) /\ c_in_ts (w_c w') = true /\
   exists seg, w_log w' = w_log w ++ ECb 2 true true :: seg /\ Forall (midok true) seg.
 Proof.
   intros Hi Ho. cbv zeta. unfold with_use_ts. set (w0 := set_c w (set_use_ts (w_c w) true)).
   destruct (close_cb_in d w0 Hi Ho) as [O [A X]]. up. auto.
 Qed.
+
+(* ---- oracle consumption: the remaining answers are always a suffix of the previous ones *)
+Definition orsuf (w w' : world) : Prop := exists pre, w_or w = pre ++ w_or w'.
+Lemma orsuf_refl w : orsuf w w. Proof. exists []. reflexivity. Qed.
+Lemma orsuf_same w w' : w_or w' = w_or w -> orsuf w w'.
+Proof. intros H. exists []. rewrite H. reflexivity. Qed.
+Lemma orsuf_tl w w' : w_or w' = tl (w_or w) -> orsuf w w'.
+Proof. intros H. unfold orsuf. rewrite H. destruct (w_or w) as [|a l]; [exists []|exists [a]]; reflexivity. Qed.
+Lemma orsuf_trans w1 w2 w3 : orsuf w1 w2 -> orsuf w2 w3 -> orsuf w1 w3.
+Proof. intros [p1 E1] [p2 E2]. exists (p1 ++ p2). rewrite E1, E2, app_assoc. reflexivity. Qed.
+
+Lemma clock_cb_orsuf d w : orsuf w (snd (clock_cb d w)).
+Proof. apply orsuf_tl. rewrite clock_cb_eq. reflexivity. Qed.
+Lemma full_cb_orsuf w : orsuf w (snd (full_cb w)).
+Proof. apply orsuf_tl. rewrite full_cb_eq. reflexivity. Qed.
+Lemma cb_enter_orsuf k w : orsuf w (cb_enter k w).
+Proof. apply orsuf_tl. reflexivity. Qed.
+Lemma preamble_orsuf d w f : orsuf w (snd (preamble_ts d w f)).
+Proof.
+  destruct (preamble_cases d w f) as [[E _]|[[E _]|[E _]]]; rewrite E; try apply orsuf_refl.
+  apply clock_cb_orsuf.
+Qed.
+Lemma open_fn_orsuf d w : orsuf w (open_fn d w).
+Proof.
+  rewrite open_fn_eq. eapply orsuf_trans; [apply preamble_orsuf|].
+  match goal with |- orsuf ?w1 (open_core d ?ts _) =>
+    destruct (open_core_cases d ts w1) as [E|[_ E]]; rewrite E; [apply orsuf_refl|];
+    apply orsuf_same, (open_do_post d ts w1) end.
+Qed.
+Lemma close_fn_orsuf d w : orsuf w (close_fn d w).
+Proof.
+  rewrite close_fn_eq. eapply orsuf_trans; [apply preamble_orsuf|].
+  match goal with |- orsuf ?w1 (close_core d ?ts _) =>
+    destruct (close_core_cases d ts w1) as [E|[_ E]]; rewrite E; [apply orsuf_refl|];
+    apply orsuf_same, (close_do_post d ts w1) end.
+Qed.
+Lemma open_cb_orsuf d w : orsuf w (open_cb d w).
+Proof. rewrite open_cb_eq. eapply orsuf_trans; [apply cb_enter_orsuf|apply open_fn_orsuf]. Qed.
+Lemma close_cb_orsuf d w : orsuf w (close_cb d w).
+Proof.
+  rewrite close_cb_eq. eapply orsuf_trans; [apply cb_enter_orsuf|].
+  eapply orsuf_trans; [apply close_fn_orsuf|].
+  unfold close_hand. destruct (_ && _); [|apply orsuf_refl].
+  match goal with |- context [close_give d ?a ?x] =>
+    assert (G : orsuf x (close_give d a x)) by (apply orsuf_same, close_give_pk) end.
+  destruct (a_eager _); [|exact G]. eapply orsuf_trans; [exact G|apply open_fn_orsuf].
+Qed.
+Lemma with_use_ts_orsuf f w : (forall w, orsuf w (f w)) -> orsuf w (with_use_ts f w).
+Proof.
+  intros Hf. unfold with_use_ts.
+  destruct (Hf (set_c w (set_use_ts (w_c w) true))) as [pre E]. exists pre. exact E.
+Qed.
+Lemma reserve_orsuf d w n : orsuf w (snd (reserve d w n)).
+Proof.
+  apply (reserve_inv d (fun w' => orsuf w w')); try apply orsuf_refl; intros w' H.
+  - eapply orsuf_trans; [exact H|apply full_cb_orsuf].
+  - eapply orsuf_trans; [exact H|apply with_use_ts_orsuf, open_cb_orsuf].
+  - eapply orsuf_trans; [exact H|apply with_use_ts_orsuf, close_cb_orsuf].
+  - exact H.
+  - exact H.
+Qed.
+Lemma trace_fn_orsuf d e args w : orsuf w (trace_fn d e args w).
+Proof.
+  rewrite trace_fn_eq.
+  assert (H1 : orsuf w (trace_entry d w)).
+  { unfold trace_entry. destruct (d_has_clock d); [|apply orsuf_refl].
+    destruct (clock_cb_orsuf d w) as [pre E]. exists pre. exact E. }
+  destruct (negb _); [exact H1|]. eapply orsuf_trans; [exact H1|].
+  set (w1 := trace_entry d w). unfold trace_body. cbv zeta.
+  destruct (size_parts _ _); [|apply orsuf_same; reflexivity].
+  match goal with |- context [reserve d ?w0 ?n] =>
+    assert (H2 : orsuf w1 (snd (reserve d w0 n)))
+      by (destruct (reserve_orsuf d w0 n) as [pre E]; exists pre; exact E);
+    set (r := reserve d w0 n) in * end.
+  destruct (negb (fst r)); [exact H2|]. destruct (w_err (snd r)); [exact H2|].
+  eapply orsuf_trans; [exact H2|]. unfold trace_ser. cbv zeta.
+  match goal with |- context [ser_parts d ?w3 ?ps] =>
+    assert (H4 : orsuf (snd r) (ser_parts d w3 ps)); [|set (w4 := ser_parts d w3 ps) in *] end.
+  { apply orsuf_same. rewrite (proj1 (proj2 (ser_parts_keep d _ _))).
+    unfold trace_mark. destruct (_ && _); reflexivity. }
+  destruct (w_err w4); [exact H4|]. eapply orsuf_trans; [exact H4|].
+  unfold trace_commit. cbv zeta.
+  destruct (_ =? _); [|apply orsuf_same; reflexivity].
+  destruct (close_cb_orsuf d w4) as [pre E]. exists pre. exact E.
+Qed.
+Lemma step_orsuf d w k : orsuf w (step d w k).
+Proof.
+  unfold step. destruct (w_err w); [apply orsuf_refl|].
+  match goal with |- orsuf w (if w_err ?W then _ else _) =>
+    assert (HW : orsuf w W); [|destruct (w_err W); [exact HW|]] end.
+  2:{ destruct HW as [pre E]. exists pre. exact E. }
+  destruct k as [ei args| | |b|].
+  - destruct (nth_error (d_erts d) ei); [apply trace_fn_orsuf|apply orsuf_same; reflexivity].
+  - apply open_cb_orsuf.
+  - apply close_cb_orsuf.
+  - apply orsuf_same; reflexivity.
+  - destruct (_ && _); [apply close_cb_orsuf|apply orsuf_refl].
+Qed.
+
+(* no remaining oracle answer is "eager" *)
+Definition NE (w : world) : Prop := Forall (fun a => a_eager a = false) (w_or w).
+Lemma NE_orsuf w w' : NE w -> orsuf w w' -> NE w'.
+Proof. unfold NE. intros H [pre E]. rewrite E in H. apply Forall_app in H. apply H. Qed.
+Lemma NE_hd w : NE w -> a_eager (hd_ans w) = false.
+Proof. unfold NE, hd_ans. destruct (w_or w); intros H; [reflexivity|]. inversion H; assumption. Qed.
 
 Lemma full_cb_pk w :
   let w' := snd (full_cb w) in
@@ -685,12 +840,13 @@ Proof.
 Qed.
 
 Lemma reserve2_proto d n w :
-  c_in_ts (w_c w) = true -> c_open (w_c w) = true ->
+  NE w -> c_in_ts (w_c w) = true -> c_open (w_c w) = true ->
   extn w (snd (reserve2 d n w)) /\ (fst (reserve2 d n w) = true -> c_open (w_c (snd (reserve2 d n w))) = true).
 Proof.
-  intros Hi Ho. unfold reserve2.
+  intros Hne Hi Ho. unfold reserve2.
   destruct (gt_diff32 n (c_psize (w_c w)) (c_at (w_c w))); [|split; [apply extn_refl|auto]].
   cbv zeta. destruct (wclose d w Hi Ho) as [O1 [I1 [seg [E F]]]].
+  specialize (O1 (NE_hd w Hne)).
   set (w1 := with_use_ts (close_cb d) w) in *.
   assert (X1 : extn w w1).
   { exists (ECb 2 true true :: seg). split; [exact E|]. intros la. cbn.
@@ -710,10 +866,10 @@ Lemma gt_diff32_full n p : 0 < n -> gt_diff32 n p p = true.
 Proof. intros H. unfold gt_diff32. rewrite Nat.leb_refl, Nat.sub_diag. apply Nat.ltb_lt, H. Qed.
 
 Lemma reserve_proto d w n :
-  KKin w -> 0 < n ->
+  NE w -> KKin w -> 0 < n ->
   extn w (snd (reserve d w n)) /\ (fst (reserve d w n) = true -> c_open (w_c (snd (reserve d w n))) = true).
 Proof.
-  intros [[K1 K2] Hi] Hn. rewrite reserve_eq. unfold reserve'.
+  intros Hne [[K1 K2] Hi] Hn. rewrite reserve_eq. unfold reserve'.
   destruct (gt_diff32 n (c_psize (w_c w)) (c_off_content (w_c w))) eqn:G1.
   { split; [apply no_space_extn|discriminate]. }
   destruct (c_at (w_c w) =? c_psize (w_c w)) eqn:Ea.
@@ -724,7 +880,10 @@ Proof.
     destruct (fst (full_cb w)) eqn:Hf.
     + split; [apply full_then_nospace, Hi|discriminate].
     + destruct (full_then_open d w Hi Ho Hf) as [O2 [I2 X2]].
-      destruct (reserve2_proto d n _ I2 O2) as [X3 P3]. split; [eapply extn_trans; eauto|exact P3].
+      assert (Hne2 : NE (with_use_ts (open_cb d) (snd (full_cb w)))).
+      { eapply NE_orsuf; [exact Hne|]. eapply orsuf_trans; [apply full_cb_orsuf|].
+        apply with_use_ts_orsuf, open_cb_orsuf. }
+      destruct (reserve2_proto d n _ Hne2 I2 O2) as [X3 P3]. split; [eapply extn_trans; eauto|exact P3].
   - apply Nat.eqb_neq in Ea.
     assert (Ho : c_open (w_c w) = true).
     { destruct (c_open (w_c w)) eqn:Eo; [reflexivity|]. elim Ea. apply K2. reflexivity. }
@@ -733,10 +892,13 @@ Qed.
 
 (* the tracing function *)
 Lemma trace_fn_proto d e args w :
-  pos_records d -> In e (d_erts d) -> KK w -> c_in_ts (w_c w) = false ->
+  pos_records d -> In e (d_erts d) -> NE w -> KK w -> c_in_ts (w_c w) = false ->
   extn w (trace_fn d e args w) /\ (w_err (trace_fn d e args w) = false -> KK (trace_fn d e args w)).
 Proof.
-  intros Hpos Hin K Hi. rewrite trace_fn_eq.
+  intros Hpos Hin Hne K Hi. rewrite trace_fn_eq.
+  assert (N0 : NE (trace_entry d w)).
+  { eapply NE_orsuf; [exact Hne|]. unfold trace_entry. destruct (d_has_clock d); [|apply orsuf_refl].
+    destruct (clock_cb_orsuf d w) as [pre E]. exists pre. exact E. }
   assert (X0 : extn w (trace_entry d w)).
   { exists (entry_seg d w). split; [apply trace_entry_log|].
     apply pn1_seg. unfold entry_seg. destruct (d_has_clock d); repeat constructor. cbn. auto. }
@@ -751,7 +913,7 @@ Proof.
   pose proof (Hpos e args _ _ Hin Es) as Hlt.
   set (w2 := set_c w1 (set_in_ts (w_c w1) true)).
   assert (K2 : KKin w2) by (split; [exact K0|reflexivity]).
-  destruct (reserve_proto d w2 (at_end - c_at (w_c w1)) K2) as [X3 O3]; [lia|].
+  destruct (reserve_proto d w2 (at_end - c_at (w_c w1)) N0 K2) as [X3 O3]; [lia|].
   pose proof (reserve_KKin d w2 (at_end - c_at (w_c w1)) K2) as [K3 I3].
   set (r := reserve d w2 (at_end - c_at (w_c w1))) in *.
   assert (X3' : extn w (snd r)) by (eapply extn_trans; [exact X0|exact X3]).
@@ -782,9 +944,10 @@ Proof.
       exists (ECb 2 true true :: seg). split; [exact E|]. intros la. cbn.
       split; [discriminate|]. split; [auto|].
       apply pn1_seg. eapply Forall_impl; [|exact F]. intros e0; apply midok_pn1.
-    + intros _. destruct (close_cb_dec d w4) as [[_ [_ [_ [_ X]]]]|[_ [O A]]].
+    + intros _. destruct (close_cb_dec d w4) as [[_ [_ [_ [_ X]]]]|[[_ [O A]]|[_ [_ [O A]]]]].
       * specialize (X I5). congruence.
       * split; up; [congruence|auto].
+      * split; up; [intros _ H; congruence|congruence].
   - apply Nat.eqb_neq in Ea. split.
     + eapply extn_eq_log_r; [|exact X5]. reflexivity.
     + intros _. split; up; [intros _ H; elim Ea; exact H|congruence].
@@ -797,9 +960,9 @@ Definition PI (w : world) : Prop :=
 Lemma proto_extn w w' : proto None (w_log w) -> extn w w' -> proto None (w_log w').
 Proof. intros H [seg [E F]]. rewrite E. apply proto_app. split; [exact H|apply F]. Qed.
 
-Lemma step_PI d w k : pos_records d -> PI w -> PI (step d w k).
+Lemma step_PI d w k : pos_records d -> NE w -> PI w -> PI (step d w k).
 Proof.
-  intros Hpos [HP HK]. unfold step. destruct (w_err w) eqn:Ee; [split; [exact HP|rewrite Ee; discriminate]|].
+  intros Hpos Hne [HP HK]. unfold step. destruct (w_err w) eqn:Ee; [split; [exact HP|rewrite Ee; discriminate]|].
   destruct (HK eq_refl) as [K Hi]. clear HK.
   match goal with |- PI (if w_err ?W then _ else _) =>
     assert (HW : PI W); [|destruct (w_err W) eqn:Ee2; [exact HW|]] end.
@@ -809,7 +972,7 @@ Proof.
         eapply KK_same; [exact K2|..]; reflexivity. }
   destruct k as [ei args| | |b|].
   - destruct (nth_error (d_erts d) ei) as [e|] eqn:En.
-    + destruct (trace_fn_proto d e args w Hpos (nth_error_In _ _ En) K Hi) as [X KX].
+    + destruct (trace_fn_proto d e args w Hpos (nth_error_In _ _ En) Hne K Hi) as [X KX].
       split; [eapply proto_extn; eauto|]. intros He. split; [apply KX, He|].
       apply trace_fn_flag_off; assumption.
     + split; up; [|discriminate]. apply proto_app. split; [exact HP|exact I].
@@ -826,19 +989,24 @@ Proof.
     + intros _. split; [apply close_cb_KK, K|exact A].
 Qed.
 
-Lemma steps_PI d h w : pos_records d -> PI w -> PI (fold_left (step d) h w).
-Proof. intros Hpos. revert w. induction h as [|k h IH]; intros w H; cbn [fold_left]; auto. apply IH, step_PI; auto. Qed.
+Lemma steps_PI d h w : pos_records d -> NE w -> PI w -> PI (fold_left (step d) h w).
+Proof.
+  intros Hpos. revert w. induction h as [|k h IH]; intros w Hne H; cbn [fold_left]; auto.
+  apply IH; [eapply NE_orsuf; [exact Hne|apply step_orsuf]|apply step_PI; auto].
+Qed.
 
 (* C06 (c): hypotheses: every event record has positive size; the history starts with an opening
-   of the first packet that takes effect *)
+   of the first packet that takes effect; the platform never opens the next packet itself from its
+   close callback (no "eager" answer) *)
 Theorem run_proto d buf pcargs oracle h :
   pos_records d ->
+  Forall (fun a => a_eager a = false) oracle ->
   c_open (w_c (run d buf pcargs oracle [COpen])) = true ->
   proto None (w_log (run d buf pcargs oracle (COpen :: h))).
 Proof.
-  intros Hpos Hopen. unfold run in *. cbn [fold_left] in *.
+  intros Hpos Hne Hopen. unfold run in *. cbn [fold_left] in *.
   set (w0 := mk_w _ _ _ _ _ _) in *.
-  apply steps_PI; [exact Hpos|].
+  apply steps_PI; [exact Hpos|apply (NE_orsuf w0); [exact Hne|apply step_orsuf]|].
   assert (F0 : flag_inv (step d w0 COpen)).
   { apply step_flag_inv. split; [constructor|]. intros _. split; reflexivity. }
   split.
